@@ -240,6 +240,25 @@ func eofNamedRules() lexer.Rules {
 	}
 }
 
+// fenceRules: a back-reference to captured text made of regular-expression metacharacters
+// (markdown-style fences), which must be quoted when the pattern is expanded.
+func fenceRules() lexer.Rules {
+	return lexer.Rules{
+		"Root": {
+			{Name: "Fence", Pattern: `(\*{3,}|\.{3}|\+\+|\$\$|\[\[|\(\?|\\\\)`, Action: lexer.Push("Body")},
+			{Name: "Word", Pattern: `[^\s*.+$\[(\\]+`},
+			{Name: "space", Pattern: `\s+`},
+			{Name: "Punct", Pattern: `[*.+$\[(\\]`},
+		},
+		"Body": {
+			{Name: "End", Pattern: `\1`, Action: lexer.Pop()},
+			{Name: "Text", Pattern: `[^\s*.+$\[(\\]+`},
+			{Name: "space", Pattern: `\s+`},
+			{Name: "Punct", Pattern: `[*.+$\[(\\]`},
+		},
+	}
+}
+
 func mustRules(r lexer.Rules) lexer.Definition {
 	d, err := lexer.New(r)
 	if err != nil {
@@ -287,6 +306,8 @@ var coreLexDefs = []*lexDef{
 		corpus: []string{"a + 1 { b * 'c' } - 2", "{ { x } }", "a ? b", "{ 'open", "}", ""}},
 	{name: "eof-named-rule", rules: eofNamedRules, genName: "EofNamed", build: func() lexer.Definition { return mustRules(eofNamedRules()) },
 		corpus: []string{"a <<EOF b c EOF d e", "<<EOF x", "EOF <<EOF EOF EOF", ""}},
+	{name: "fence", rules: fenceRules, build: func() lexer.Definition { return mustRules(fenceRules()) },
+		corpus: []string{"a *** code * here *** b", "... x . y ... ++ p + q ++", "$$ 1 $ 2 $$ [[ a [ b [[ (? x ( y (?", "\\\\ back \\ slash \\\\ done", "**** four **** *** open", ""}},
 	{name: "optgroup", rules: optGroupRules, build: func() lexer.Definition { return mustRules(optGroupRules()) },
 		corpus: []string{"a <<-END x y END b", "a <<END x END b", "<<- x", "<<E", ""}},
 	{name: "basic-runtime", build: basicRuntimeDef, genName: "",
